@@ -12,7 +12,9 @@ candidates, ballots, seats; any ballot contents) and every lawful arithmetic:
   exception in the implementation) exactly `seats` candidates are elected and no candidate is left hopeful, i.e. every
   non-withdrawn candidate is elected or defeated and none is both (a candidate has one status).
 
-Not proved here: cfer, mpls, the batch variants of wigm, the Meek family and QPQ (their termination is decided by the
+* `cfer_seats_filled_fixed` (cfer and cfer-batch, `DroopProofs/RunCfer.lean`).
+
+Not proved here: mpls, the batch variants of wigm, the Meek family and QPQ (their termination is decided by the
 correspondence runs and the `okC01` oracle on both records), and the case seats > candidates.
 -/
 namespace Droop.C01
@@ -46,5 +48,38 @@ theorem decided_of_no_hopeful {α : Type} [CommRing α] [LinearOrder α] [IsStri
 /-- non-vacuity: the two-candidate profile of `Props/C02` is a legitimate start -/
 example : ScotStart (fixedArith 4) C02.tiny :=
   ⟨C02.tiny_init, by decide, by intro c hc; simp [C02.tiny] at hc; rcases hc with rfl | rfl <;> simp, by decide⟩
+
+/-! ## CfER -/
+
+/-- under fixed-point arithmetic the CfER threshold `⌊n/(s+1)⌋ + 0.00001` is positive and satisfies the Droop condition,
+    so a legitimate start is: `Init`, nobody elected, at least as many candidates as seats, round counter 0 -/
+theorem cferQuota_fixed (p : Nat) (s0 : St Int) :
+    cferQuota (fixedArith p) s0
+      = pdiv ((s0.nballots : Int) * pow10 p * pow10 p) ((((s0.seats + 1 : Nat)) : Int) * pow10 p) + 1 := by
+  have hS := pow10_pos p
+  have h1 : ¬ (((s0.seats : Int) + 1 = 0) ∨ pow10 p = 0) := by
+    intro h; rcases h with h | h <;> omega
+  simp [cferQuota, fixedArith, h1]
+
+theorem cfer_start (p : Nat) (s0 : St Int) (hinit : Init (fixedArith p) s0) (hfresh : ∀ c ∈ s0.cands, c.st ≠ .elected)
+    (henough : s0.seats ≤ nHop s0) (hround : s0.round = 0) : GStart (fixedArith p) (cferQuota (fixedArith p) s0) s0 := by
+  have hS := pow10_pos p
+  have hk : (0 : Int) < ((s0.seats + 1 : Nat) : Int) := by exact_mod_cast Nat.succ_pos s0.seats
+  refine ⟨hinit, ?_, hfresh, henough, hround, ?_⟩
+  · rw [cferQuota_fixed]
+    have : 0 ≤ pdiv ((s0.nballots : Int) * pow10 p * pow10 p) (((s0.seats + 1 : Nat) : Int) * pow10 p) :=
+      pdiv_nonneg _ _ (by positivity) (by positivity)
+    omega
+  · rw [cferQuota_fixed]
+    have := fixed_droopQuota p s0.nballots s0.seats
+    simpa [fixedArith] using this
+
+theorem cfer_seats_filled_fixed (p : Nat) (batch : Bool) (s0 : St Int) (hinit : Init (fixedArith p) s0)
+    (hfresh : ∀ c ∈ s0.cands, c.st ≠ .elected) (henough : s0.seats ≤ nHop s0) (hround : s0.round = 0) :
+    ∃ t, cferCount (fixedArith p) batch s0 = some t ∧ (t.crash = none → nEl t = t.seats ∧ nHop t = 0) :=
+  cfer_seats_filled _ (fixed_lawful p) rfl batch s0 (cfer_start p s0 hinit hfresh henough hround)
+
+example : GStart (fixedArith 4) (cferQuota (fixedArith 4) C02.tiny) C02.tiny :=
+  cfer_start 4 C02.tiny C02.tiny_init (by intro c hc; simp [C02.tiny] at hc; rcases hc with rfl | rfl <;> simp) (by decide) rfl
 
 end Droop.C01
